@@ -2,261 +2,323 @@
 import ast
 
 from ..pm import AnalysisError, norm_src, func_params
-from ..flow import CFG, attr_chain
+from ..flow import CFG, ENTRY, attr_chain
 from ..astutil import call_name, self_name
 from ..callgraph import resolve_name
-from ..e6_algebra import to_rat, NotScalarArithmetic
-from ..e3_axes import Interp, Arr, Num, Ax, Lst, NoneV
+from ..match import resolve_expr, canon_equal, cfg_node, stmt_of, single_def
+from ..e3_axes import Interp, Arr, Num, Ax, Lst, NoneV, Frame, is_top
 from ..scenarios import symbolic_estimator, nonusage, dedup_events
 
 PROP = "C06"
 EXPLANATION = (
-    "(a) shrinkage wiring in both sparse _update_weights: the optimiser step comes first; then, on each branch of "
-    "`self.groups_ is None`, the (group) proximal operator of the model family is applied to the model's own (skip-)weights "
-    "with a threshold whose canonical form is alpha * optimiser_.learning_rate (and M for the hierarchical operator); its "
-    "outputs are copied in place (np.copyto) into the very arrays they were computed from, output i into input i; (b) every "
-    "matrix that multiplies X in _infer is such a copyto target, and get_selection / _n_selected_features / "
-    "_group_lasso_penalty all read the same (skip-)matrix through a row norm over the non-feature axis (checked on axis "
-    "types); (c) groups stay whole: the group operators send the rows of each group through one operator call as a single "
-    "flattened row and write the result back to the same rows with the group's shape; the iterated groups are "
-    "check_groups(self.groups, n_features) computed in fit before training, completed with singleton groups. Not decided: "
-    "numerical inertness (hierarchy bound), correctness of check_groups' partition logic over all group lists.")
-ASSUMPTIONS = ["np.copyto(dst, src) writes src into dst in place", "np.linalg.norm(W, axis=1) is the per-feature row norm for W:[D,.]"]
+    "(a) shrinkage wiring in both sparse _update_weights, decided on the CFG: every call of a proximal operator of "
+    "gemclus.sparse._prox_grad is dominated by the optimiser step; its operands are the model's own (skip-)weights; its "
+    "threshold argument, after resolving local names through their unique reaching definitions, is canonically "
+    "alpha * optimiser_.learning_rate, and the learning rate is read after the optimiser step (Adam rewrites it in every "
+    "update); output i of the operator is written back in place (np.copyto / slice store) into operand i on every path; (b) "
+    "every matrix that multiplies X in _infer is such an operand, and get_selection / _n_selected_features / "
+    "_group_lasso_penalty read the first of them through a row norm over the non-feature axis (axis types from the abstract "
+    "interpretation); (c) groups stay whole: in the abstract interpretation of the group operators every operand handed to the "
+    "elementary operator is a single row ([1, ...]) gathered with the group's indices, and groups_ is "
+    "check_groups(self.groups, n_features) computed in fit before training, unconditionally. Not decided: numerical inertness "
+    "(hierarchy bound), check_groups' partition logic over all group lists.")
+ASSUMPTIONS = ["np.copyto(dst, src) writes src into dst in place", "np.linalg.norm(W, axis=1) is the per-feature row norm for W:[D,.]",
+               "sklearn's AdamOptimizer updates its learning_rate attribute inside update_params"]
 
-FAMS = [("gemclus.sparse._linear_sparse", "SparseLinearModel", "linear_prox_grad", "group_linear_prox_grad", ["W_"], []),
-        ("gemclus.sparse._mlp_sparse", "SparseMLPModel", "mlp_prox_grad", "group_mlp_prox_grad", ["W_skip_", "W1_"], ["self.M"])]
+FAMS = [("SparseLinearModel", ["W_"], 0), ("SparseMLPModel", ["W_skip_", "W1_"], 1)]
+PROX = "gemclus.sparse._prox_grad"
+
+
+def prox_functions(pm):
+    pu = pm.unit(PROX)
+    return {n for n in pu.functions if n.endswith("prox_grad")}
 
 
 def run(pm, ctx):
-    ctx.rule("C06-a", "the shrinkage after each optimiser step must be the proximal step with threshold alpha x learning rate, applied in place", floor=8)
-    ctx.rule("C06-b", "selection must be read from the weights that inference multiplies the features with", floor=10)
-    ctx.rule("C06-c", "a feature group is shrunk and zeroed as one block", floor=8)
-    pu = pm.unit("gemclus.sparse._prox_grad")
-    for mod, cname, prox, gprox, mats, extra in FAMS:
+    ctx.rule("C06-a", "the shrinkage after each optimiser step must be the proximal step with threshold alpha x current learning rate, applied in place", floor=7)
+    ctx.rule("C06-b", "selection must be read from the weights that inference multiplies the features with", floor=8)
+    ctx.rule("C06-c", "a feature group is shrunk and zeroed as one block", floor=6)
+    pu = pm.unit(PROX)
+    pnames = prox_functions(pm)
+    for cname, mats, n_extra in FAMS:
         ci = pm.classes.get(cname)
         if ci is None or "_update_weights" not in ci.methods:
             raise AnalysisError(f"anchor vanished: {cname}._update_weights")
         f = ci.methods["_update_weights"]
         unit, qn = ci.unit, f"{cname}._update_weights"
-        # ---- a
-        body = f.body
-        upd = [i for i, s in enumerate(body) if isinstance(s, ast.Expr) and isinstance(s.value, ast.Call) and call_name(s.value) == "self.optimiser_.update_params"]
-        ifs = [i for i, s in enumerate(body) if isinstance(s, ast.If) and norm_src(s.test) in ("self.groups_ is None", "self.groups_ is not None")]
-        copies = [i for i, s in enumerate(body) if isinstance(s, ast.Expr) and isinstance(s.value, ast.Call) and call_name(s.value) == "np.copyto"]
-        site = f"{qn}: order"
-        if len(upd) == 1 and len(ifs) == 1 and copies and upd[0] < ifs[0] < min(copies) and [norm_src(a) for a in body[upd[0]].value.args] == func_params(f)[1:3]:
-            ctx.ok("C06-a", site, "optimiser step, then prox, then in-place copy")
-        else:
-            ctx.violation("C06-a", unit.relpath, qn, norm_src(body[ifs[0]].test) if ifs else "prox step", "the shrinkage is not applied after the optimiser step and "
-                          "before the in-place copy", line=f.lineno, site=site)
+        cfg = CFG(f)
+        sn = self_name(f)
+        upd = [st for st in cfg.nodes if any(isinstance(n, ast.Call) and (call_name(n) or "").endswith("optimiser_.update_params") for e in cfg.header_exprs(st) for n in ast.walk(e))]
+        calls = []
+        for st in cfg.nodes:
+            for e in cfg.header_exprs(st):
+                for n in ast.walk(e):
+                    if isinstance(n, ast.Call) and isinstance(n.func, ast.Name) and n.func.id in pnames:
+                        kind, tgt = resolve_name(pm, unit, n.func.id)
+                        if kind == "function" and tgt[0].modname == PROX:
+                            calls.append((st, n))
+        if not upd:
+            ctx.unrecognised("C06-a", qn, "no optimiser_.update_params call")
             continue
-        branch = body[ifs[0]]
-        none_first = norm_src(branch.test) == "self.groups_ is None"
-        plain, grouped = (branch.body, branch.orelse) if none_first else (branch.orelse, branch.body)
-        outs = None
-        for label, blk, fname, lead in (("plain", plain, prox, []), ("grouped", grouped, gprox, ["self.groups_"])):
-            site = f"{qn}: {label} branch"
-            asg = [s for s in blk if isinstance(s, ast.Assign) and isinstance(s.value, ast.Call)]
-            if len(asg) != 1 or call_name(asg[0].value) != fname:
-                ctx.violation("C06-a", unit.relpath, qn, norm_src(blk[0])[:160] if blk else label, f"the {label} branch does not call {fname}", line=branch.lineno, site=site)
-                continue
-            call = asg[0].value
-            args = [norm_src(a) for a in call.args]
-            want_prefix = lead + [f"self.{m}" for m in mats]
+        if not calls:
+            ctx.violation("C06-a", unit.relpath, qn, norm_src(upd[0])[:120], "no proximal operator of _prox_grad is applied after the optimiser step: weights are never shrunk",
+                          line=f.lineno, site=f"{qn}: prox step")
+            continue
+        wb_all_ok = True
+        for st, call in calls:
+            site = f"{qn}: {call.func.id}"
             probs = []
-            if args[:len(want_prefix)] != want_prefix:
-                probs.append(f"operands are {args[:len(want_prefix)]}, expected {want_prefix}")
-            thr = call.args[len(want_prefix)] if len(call.args) > len(want_prefix) else None
-            try:
-                okthr = thr is not None and to_rat(thr).equals(to_rat(ast.parse("self.alpha * self.optimiser_.learning_rate", mode="eval").body))
-            except NotScalarArithmetic:
-                okthr = False
-            if not okthr:
-                probs.append(f"threshold is {norm_src(thr) if thr is not None else 'missing'}, not alpha * optimiser_.learning_rate")
-            if args[len(want_prefix) + 1:] != extra:
-                probs.append(f"trailing arguments {args[len(want_prefix) + 1:]} (expected {extra})")
-            tg = asg[0].targets[0]
-            names = [norm_src(e) for e in tg.elts] if isinstance(tg, ast.Tuple) else [norm_src(tg)]
-            if outs is None:
-                outs = names
-            elif outs != names:
-                probs.append("the two branches bind their results to different names")
-            if len(names) != len(mats):
-                probs.append(f"{len(names)} outputs for {len(mats)} matrices")
+            if not all(cfg.dominates(u, st) for u in upd):
+                probs.append("the proximal step is not preceded by the optimiser step on every path")
+            pf = pu.func(call.func.id)
+            pparams = func_params(pf)
+            grouped = pparams[0] == "groups"
+            args = list(call.args)
+            off = 1 if grouped else 0
+            if grouped and not (args and attr_chain(args[0]) == f"{sn}.groups_"):
+                probs.append(f"the group operator is not given {sn}.groups_")
+            ops = args[off:off + len(mats)]
+            opnames = [attr_chain(a) for a in ops]
+            if opnames != [f"{sn}.{m}" for m in mats]:
+                probs.append(f"operands {[norm_src(a) for a in ops]} are not the model's {mats}")
+            thr = args[off + len(mats)] if len(args) > off + len(mats) else None
+            if thr is None:
+                probs.append("no threshold argument")
+            else:
+                full = resolve_expr(cfg, st, thr)
+                if not canon_equal(full, f"{sn}.alpha * {sn}.optimiser_.learning_rate"):
+                    probs.append(f"the threshold is {norm_src(full)}, not alpha * optimiser_.learning_rate")
+                else:
+                    # where is the learning rate read?
+                    read_st = st
+                    if isinstance(thr, ast.Name):
+                        d = single_def(cfg, st, thr.id)
+                        read_st = d if d is not None else st
+                    if not all(cfg.dominates(u, read_st) and read_st is not u for u in upd):
+                        probs.append("the learning rate is read before the optimiser step that rewrites it (stale threshold)")
+            extra = args[off + len(mats) + 1:]
+            if len(extra) != n_extra or (n_extra and attr_chain(extra[0]) != f"{sn}.M"):
+                probs.append(f"hierarchy constant arguments are {[norm_src(a) for a in extra]}")
+            # write back: outputs bound by this statement
+            outs = []
+            if isinstance(st, ast.Assign):
+                t = st.targets[0]
+                outs = [e.id for e in t.elts] if isinstance(t, ast.Tuple) and all(isinstance(e, ast.Name) for e in t.elts) else ([t.id] if isinstance(t, ast.Name) else [])
+            if len(outs) != len(mats):
+                probs.append(f"{len(outs)} outputs bound for {len(mats)} matrices")
+            else:
+                rd = cfg.reaching()
+                for o, m in zip(outs, mats):
+                    wb = []
+                    for s2 in cfg.nodes:
+                        for e in cfg.header_exprs(s2):
+                            for n in ast.walk(e):
+                                if isinstance(n, ast.Call) and call_name(n) == "np.copyto" and len(n.args) >= 2 and attr_chain(n.args[0]) == f"{sn}.{m}" \
+                                        and isinstance(n.args[1], ast.Name) and n.args[1].id == o and st in rd[s2].get(o, ()):
+                                    wb.append(s2)
+                        if isinstance(s2, ast.Assign) and isinstance(s2.targets[0], ast.Subscript) and attr_chain(s2.targets[0].value) == f"{sn}.{m}" \
+                                and isinstance(s2.value, ast.Name) and s2.value.id == o and st in rd[s2].get(o, ()):
+                            wb.append(s2)
+                    pdom = cfg.postdominators()
+                    if not wb:
+                        rebind = [s2 for s2 in cfg.nodes if isinstance(s2, ast.Assign) and attr_chain(s2.targets[0]) == f"{sn}.{m}"]
+                        probs.append(f"output {o} is never written back in place into {sn}.{m}" + (" (the attribute is re-bound instead: the optimiser keeps the old array)" if rebind else ""))
+                        wb_all_ok = False
+                    elif not any(w in pdom[st] for w in wb):
+                        probs.append(f"output {o} is not written back on every path")
             if probs:
-                ctx.violation("C06-a", unit.relpath, qn, norm_src(asg[0])[:200], "; ".join(probs), line=asg[0].lineno, site=site)
+                ctx.violation("C06-a", unit.relpath, qn, norm_src(st)[:200], "; ".join(probs), line=st.lineno, site=site)
             else:
-                ctx.ok("C06-a", site, norm_src(call)[:120])
-        # copies: output i -> matrix i
-        got = []
-        for i in copies:
-            c = body[i].value
-            got.append((norm_src(c.args[0]), norm_src(c.args[1])))
-        want = [(f"self.{m}", o) for m, o in zip(mats, outs or [])]
-        site = f"{qn}: in-place copy"
-        if outs is not None and sorted(got) == sorted(want):
-            ctx.ok("C06-a", site, f"{got}")
+                ctx.ok("C06-a", site, f"after update_params; threshold alpha*lr read after the step; outputs {outs} copied into {mats}")
+        # both group branches present
+        kinds = {pu.func(c.func.id).args.args[0].arg == "groups" for _, c in calls}
+        if kinds == {True, False}:
+            tests = [norm_src(h.test) for st, _ in calls for h, br in cfg.control_conditions(st) if isinstance(h, ast.If)]
+            if any("groups_ is None" in t or "groups_ is not None" in t for t in tests):
+                ctx.ok("C06-a", f"{qn}: plain operator when groups_ is None, group operator otherwise")
+            else:
+                ctx.unrecognised("C06-a", f"{qn}: branch", "plain/group operators are not selected by `groups_ is None`")
         else:
-            ctx.violation("C06-a", unit.relpath, qn, norm_src(body[copies[0]]) if copies else "np.copyto", f"prox outputs are copied as {got}, expected {want}: a "
-                          f"shrunk matrix is not written back to the array the optimiser holds", line=f.lineno, site=site)
-        # operator signatures / return order (output i derives from input i)
-        pf = pu.func(prox)
-        rets = [n for n in ast.walk(pf) if isinstance(n, ast.Return)]
-        site = f"{prox}: output order"
+            ctx.violation("C06-a", unit.relpath, qn, "groups_", "only one of the plain / grouped proximal operators is used: declared groups are ignored or required", line=f.lineno,
+                          site=f"{qn}: branch")
+        # ---- operator output order for the hierarchical operator: output i derives from operand i
         if len(mats) == 2:
+            pf = pu.func("mlp_prox_grad")
+            site = "mlp_prox_grad: output order"
+            rets = [n for n in ast.walk(pf) if isinstance(n, ast.Return)]
             params = func_params(pf)
-            okk = False
-            if len(rets) == 1 and isinstance(rets[0].value, ast.Tuple) and len(rets[0].value.elts) == 2:
-                cfg = CFG(pf)
+            cfgp = CFG(pf)
+            if len(rets) == 1 and isinstance(rets[0].value, ast.Tuple) and len(rets[0].value.elts) == 2 and all(isinstance(e, ast.Name) for e in rets[0].value.elts):
                 r0, r1 = rets[0].value.elts
-                s0, in0 = cfg.backward_slice(rets[0], [r0.id]) if isinstance(r0, ast.Name) else (set(), set())
-                # beta_star = x_star * v  (v = W_skip_): the first output must be a rescaling of the first input
-                d0 = [s for s in s0 if isinstance(s, ast.Assign) and isinstance(s.targets[0], ast.Name) and s.targets[0].id == r0.id]
-                okk = bool(d0) and isinstance(d0[0].value, ast.BinOp) and isinstance(d0[0].value.op, ast.Mult) and \
-                    any(_alias_of(cfg, d0[0], x, params[0]) for x in (d0[0].value.left, d0[0].value.right))
-                d1 = [s for s in cfg.nodes if isinstance(s, ast.Assign) and isinstance(s.targets[0], ast.Name) and isinstance(r1, ast.Name) and s.targets[0].id == r1.id]
-                okk = okk and bool(d1) and any(isinstance(n, ast.Name) and _alias_of(cfg, d1[0], n, params[1]) for n in ast.walk(d1[0].value))
-            if okk:
-                ctx.ok("C06-a", site, "(rescaled skip weights, clipped hidden weights)")
+                s0, in0 = cfgp.backward_slice(rets[0], [r0.id])
+                s1, in1 = cfgp.backward_slice(rets[0], [r1.id])
+                # E3: shapes of the outputs equal shapes of operands 0 and 1
+                I = Interp(pm)
+                D, K, H = Ax("D"), Ax("K"), Ax("H")
+                res = I.call_function(pu, pf, [Arr([D, K]), Arr([D, H]), Num("f"), Num("f")], {}, qual="mlp_prox_grad")
+                from ..e3_axes import Tup
+                okshape = isinstance(res, Tup) and len(res.items) == 2 and isinstance(res.items[0], Arr) and isinstance(res.items[1], Arr) \
+                    and [a.name for a in res.items[0].axes] == ["D", "K"] and [a.name for a in res.items[1].axes] == ["D", "H"]
+                evs = [e for e in dedup_events(nonusage(I.events)) if e.kind == "axis-mismatch"]
+                if okshape and not evs:
+                    ctx.ok("C06-a", site, f"returns ({res.items[0]!r}, {res.items[1]!r}) for operands ([D,K], [D,H])")
+                elif evs:
+                    ctx.violation("C06-a", pu.relpath, "mlp_prox_grad", norm_src(evs[0].stmt())[:160], f"[{evs[0].kind}] {evs[0].msg}", line=getattr(evs[0].node, "lineno", None), site=site)
+                elif isinstance(res, Tup) and all(isinstance(x, Arr) for x in res.items):
+                    ctx.violation("C06-a", pu.relpath, "mlp_prox_grad", norm_src(rets[0]), f"outputs have axes {res!r}: they do not line up with (skip weights, hidden weights)", line=rets[0].lineno, site=site)
+                else:
+                    ctx.unrecognised("C06-a", site, f"abstract result {res!r}")
             else:
-                ctx.violation("C06-a", pu.relpath, prox, norm_src(rets[0]) if rets else "return", "the first output is not a rescaling of the skip weights / the second "
-                              "is not derived from the hidden weights", line=pf.lineno, site=site)
-        # ---- b: inference and selection read the shrunk matrices
+                ctx.unrecognised("C06-a", site, "return is not a pair of names")
+        # ---- b: inference and selection
         C, inf = pm.resolve_method(ci, "_infer")
         xparam = func_params(inf)[1]
         mult = set()
         for n in ast.walk(inf):
-            if isinstance(n, ast.BinOp) and isinstance(n.op, ast.MatMult) and isinstance(n.left, ast.Name) and n.left.id == xparam:
-                ch = attr_chain(n.right)
-                if ch and ch.startswith("self."):
-                    mult.add(ch[5:])
+            pairs = []
+            if isinstance(n, ast.BinOp) and isinstance(n.op, ast.MatMult):
+                pairs.append((n.left, n.right))
+            if isinstance(n, ast.Call) and (call_name(n) or "").split(".")[-1] in ("dot", "matmul") and len(n.args) == 2:
+                pairs.append((n.args[0], n.args[1]))
+            for L, R in pairs:
+                if isinstance(L, ast.Name) and L.id == xparam:
+                    ch = attr_chain(R)
+                    if ch and ch.startswith(f"{sn}."):
+                        mult.add(ch.split(".", 1)[1])
         site = f"{cname}._infer: feature weights"
-        if mult and mult <= set(mats):
-            ctx.ok("C06-b", site, f"X multiplies {sorted(mult)}, all proximal outputs")
+        if not mult:
+            ctx.unrecognised("C06-b", site, "no product of X with a weight attribute")
+        elif mult <= set(mats):
+            ctx.ok("C06-b", site, f"X multiplies {sorted(mult)}, all proximal operands")
         else:
             ctx.violation("C06-b", C.unit.relpath, f"{C.name}._infer", f"X @ {sorted(mult - set(mats))}", f"the features also enter through {sorted(mult - set(mats))}, "
                           f"which the proximal step never shrinks: a discarded feature still influences predictions", line=inf.lineno, site=site)
-        if set(mats) - mult:
-            ctx.violation("C06-b", C.unit.relpath, f"{C.name}._infer", f"unused {sorted(set(mats) - mult)}", f"{sorted(set(mats) - mult)} is shrunk but not used by _infer",
+        if set(mats) - mult and mult:
+            ctx.violation("C06-b", C.unit.relpath, f"{C.name}._infer", f"unused {sorted(set(mats) - mult)}", f"{sorted(set(mats) - mult)} is shrunk but does not multiply the features in _infer",
                           line=inf.lineno, site=site + " (unused)")
         sel_mat = mats[0]
-        for mn in ("get_selection", "_n_selected_features", "_group_lasso_penalty"):
-            m = ci.methods.get(mn)
-            site = f"{cname}.{mn}"
-            if m is None:
-                raise AnalysisError(f"anchor vanished: {cname}.{mn}")
-            norms = [n for n in ast.walk(m) if isinstance(n, ast.Call) and call_name(n) == "np.linalg.norm"]
-            okk = len(norms) == 1 and norm_src(norms[0].args[0]) == f"self.{sel_mat}"
-            if okk:
-                kw = {k.arg: norm_src(k.value) for k in norms[0].keywords}
-                okk = kw.get("axis") == "1" and kw.get("ord", "2") in ("2", "None")
-            if okk:
-                ctx.ok("C06-b", site, f"row norm of self.{sel_mat} over the non-feature axis")
-            else:
-                ctx.violation("C06-b", unit.relpath, site, norm_src(norms[0]) if norms else "norm", f"{mn} does not read the l2 row norm (axis=1) of self.{sel_mat}", line=m.lineno, site=site)
-        gs = ci.methods["get_selection"]
-        rets = [n for n in ast.walk(gs) if isinstance(n, ast.Return)]
-        if rets and norm_src(rets[0].value).startswith("np.nonzero(") and norm_src(rets[0].value).endswith(")[0]"):
-            ctx.ok("C06-b", f"{cname}.get_selection = indices of non-zero rows")
-        else:
-            ctx.violation("C06-b", unit.relpath, f"{cname}.get_selection", norm_src(rets[0]) if rets else "return", "get_selection is not nonzero(row norms)", line=gs.lineno)
-        ns_ = ci.methods["_n_selected_features"]
-        rets = [n for n in ast.walk(ns_) if isinstance(n, ast.Return)]
-        if rets and "!= 0" in norm_src(rets[0].value) and norm_src(rets[0].value).endswith(".sum()"):
-            ctx.ok("C06-b", f"{cname}._n_selected_features counts rows with norm != 0 (exact zeros)")
-        else:
-            ctx.violation("C06-b", unit.relpath, f"{cname}._n_selected_features", norm_src(rets[0]) if rets else "return", "the feature count does not test `!= 0` exactly",
-                          line=ns_.lineno)
-        # E3: axis types of the selection (norm over K leaves D)
+        # abstract interpretation of the three readers
         I = Interp(pm)
         obj = symbolic_estimator(I, ci, "int")
         D, K, H = Ax("D"), Ax("K"), Ax("H")
         obj.attrs.update({"W_": Arr([D, K]), "W_skip_": Arr([D, K]), "W1_": Arr([D, H])})
-        sel = I.call_method(obj, "get_selection", [])
-        site = f"{cname}.get_selection (abstract)"
-        if isinstance(sel, Arr) and sel.space is not None and sel.space.name == "D":
-            ctx.ok("C06-b", site, repr(sel))
-        else:
-            ctx.violation("C06-b", unit.relpath, f"{cname}.get_selection", "return", f"the selection is {sel!r}, not indices into the feature axis", line=gs.lineno, site=site)
-
-        # ---- c: group operator
-        gf = pu.func(gprox)
-        site = f"{gprox}: one call per group"
-        loops = [n for n in ast.walk(gf) if isinstance(n, ast.For)]
-        probs = []
-        if len(loops) != 1 or norm_src(loops[0].iter) != func_params(gf)[0]:
-            probs.append("no single loop over the groups")
-        else:
-            lp = loops[0]
-            g = norm_src(lp.target)
-            calls = [n for n in ast.walk(lp) if isinstance(n, ast.Call) and call_name(n) == prox]
-            if len(calls) != 1:
-                probs.append(f"{prox} is not called exactly once per group")
+        for mn, want in (("get_selection", "indices into D"), ("_n_selected_features", "count"), ("_group_lasso_penalty", "scalar")):
+            m = ci.methods.get(mn)
+            site = f"{cname}.{mn}"
+            if m is None:
+                C2, m = pm.resolve_method(ci, mn)
+                if m is None:
+                    raise AnalysisError(f"anchor vanished: {cname}.{mn}")
+            reads = {attr_chain(n).split(".", 1)[1] for n in ast.walk(m) if isinstance(n, ast.Attribute) and (attr_chain(n) or "").startswith(f"{self_name(m)}.")
+                     and attr_chain(n).count(".") == 1 and isinstance(n.ctx, ast.Load)}
+            reads &= {"W_", "W_skip_", "W1_", "W2_", "b_", "b1_", "b2_"}
+            n0 = len(I.events)
+            res = I.call_method(obj, mn, [])
+            ev = I.events[n0:]
+            red = [e for e in ev if e.kind == "usage" and e.detail.get("cls") == "reduce"]
+            red_axes = {e.detail.get("axis") for e in red if e.detail.get("op") == "norm"}
+            probs = []
+            if reads != {sel_mat}:
+                probs.append(f"reads {sorted(reads)} instead of the selection matrix {sel_mat}")
+            if "D" in red_axes:
+                probs.append("the norm is taken over the feature axis (one value per output unit, not per feature)")
+            if mn == "get_selection":
+                if isinstance(res, Arr) and res.space is not None and res.space.name == "D":
+                    pass
+                elif isinstance(res, Arr):
+                    probs.append(f"returns {res!r}, not indices into the feature axis")
+                elif not probs:
+                    ctx.unrecognised("C06-b", site, f"abstract result {res!r}")
+                    continue
+            if probs:
+                ctx.violation("C06-b", unit.relpath, site, norm_src(m.body[-1])[:160], "; ".join(probs), line=m.lineno, site=site)
+            elif not red_axes and mn != "get_selection":
+                ctx.unrecognised("C06-b", site, "no row norm found")
             else:
-                c = calls[0]
-                nm = len(mats)
-                for a in c.args[:nm]:
-                    s_ = norm_src(a)
-                    if not s_.endswith(".reshape((1, -1))"):
-                        probs.append(f"operand {s_} is not flattened to a single row")
-                # operands are W[g]
-                srcs = {}
-                for s in lp.body:
-                    if isinstance(s, ast.Assign) and isinstance(s.value, ast.Subscript) and norm_src(s.value.slice) == g:
-                        srcs[norm_src(s.targets[0])] = norm_src(s.value.value)
-                ops = [norm_src(a).replace(".reshape((1, -1))", "") for a in c.args[:nm]]
-                mats_in = [srcs.get(o) for o in ops]
-                if None in mats_in or mats_in != func_params(gf)[1:1 + nm]:
-                    probs.append(f"operands {ops} are not the rows [g] of {func_params(gf)[1:1 + nm]}")
-                # write back
-                stores = [s for s in lp.body if isinstance(s, ast.Assign) and isinstance(s.targets[0], ast.Subscript) and norm_src(s.targets[0].slice) == g]
-                if len(stores) != nm:
-                    probs.append(f"{len(stores)} write-backs for {nm} matrices")
-                for s in stores:
-                    if ".reshape(" not in norm_src(s.value) or not norm_src(s.value).endswith(".shape)"):
-                        probs.append(f"{norm_src(s)} does not restore the group's shape")
-                tail = [norm_src(a) for a in c.args[nm:]]
-                if tail != func_params(gf)[1 + nm:]:
-                    probs.append(f"threshold/constant arguments {tail} are not passed through unchanged")
-        if probs:
-            ctx.violation("C06-c", pu.relpath, gprox, norm_src(loops[0])[:160] if loops else gprox, "; ".join(probs), line=gf.lineno, site=site)
-        else:
-            ctx.ok("C06-c", site)
-            ctx.ok("C06-c", f"{gprox}: results written back to the rows of the group with its shape")
-        # groups_ computed in fit before training
+                ctx.ok("C06-b", site, f"row norm of {sel_mat} over {sorted(a for a in red_axes if a)}; result {res!r}")
+        nsel = ci.methods.get("_n_selected_features")
+        if nsel is not None:
+            cmps = [n for n in ast.walk(nsel) if isinstance(n, ast.Compare)]
+            site = f"{cname}._n_selected_features: exact zero test"
+            if not cmps:
+                ctx.unrecognised("C06-b", site, "no comparison")
+            elif all(isinstance(c.ops[0], (ast.NotEq, ast.Gt)) and isinstance(c.comparators[0], ast.Constant) and c.comparators[0].value == 0 for c in cmps):
+                ctx.ok("C06-b", site)
+            else:
+                ctx.violation("C06-b", unit.relpath, f"{cname}._n_selected_features", norm_src(cmps[0]), "selected features are not those with a norm different from exactly 0 "
+                              "(a tolerance would disagree with get_selection)", line=cmps[0].lineno, site=site)
+        # ---- c: groups_ computed in fit, unconditionally, before training
         fit = ci.methods.get("fit")
-        fsrc = [norm_src(s) for s in fit.body]
-        want = "self.groups_ = check_groups(self.groups, X.shape[1])"
+        cfgf = CFG(fit)
+        gs = [s for s in cfgf.nodes if isinstance(s, ast.Assign) and attr_chain(s.targets[0]) == f"{self_name(fit)}.groups_"]
+        sup = [s for s in cfgf.nodes if any(isinstance(n, ast.Call) and norm_src(n.func) == "super().fit" for e in cfgf.header_exprs(s) for n in ast.walk(e))]
         site = f"{cname}.fit: groups_"
-        if want in fsrc and any(s.startswith("return super().fit(X, y)") for s in fsrc) and fsrc.index(want) < [i for i, s in enumerate(fsrc) if s.startswith("return super().fit")][0]:
-            ctx.ok("C06-c", site, "check_groups(self.groups, n_features) before training")
+        if not gs or not sup:
+            ctx.unrecognised("C06-c", site, "no store of groups_ / no call of the parent fit")
         else:
-            ctx.violation("C06-c", unit.relpath, f"{cname}.fit", "groups_", "groups_ is not the checked/completed group list computed before training", line=fit.lineno, site=site)
-    # check_groups completes partial lists with singletons and returns the user's list when complete
-    su = pm.unit("gemclus.sparse._base_sparse")
-    cg = su.func("check_groups")
-    src = [norm_src(s) for s in ast.walk(cg) if isinstance(s, ast.stmt)]
-    site = "check_groups: completion"
-    if "new_groups = groups + [[i] for i in range(n_features_in) if i not in all_indices]" in src and "return new_groups" in src and "return groups" in src and "return None" in src:
-        ctx.ok("C06-c", site, "missing features become singleton groups")
-    else:
-        ctx.violation("C06-c", su.relpath, "check_groups", "new_groups", "partial group lists are not completed with one singleton group per missing feature", line=cg.lineno, site=site)
-    if "all_indices.extend(list(g))" in src:
-        ctx.ok("C06-c", "check_groups: coverage computed from every index of every group")
-    else:
-        ctx.violation("C06-c", su.relpath, "check_groups", "all_indices", "the covered indices are not collected from every group", line=cg.lineno, site="check_groups: coverage")
+            g = gs[0]
+            okv = isinstance(g.value, ast.Call) and call_name(g.value) == "check_groups" and g.value.args and attr_chain(g.value.args[0]) == f"{self_name(fit)}.groups"
+            probs = []
+            if not okv:
+                probs.append(f"groups_ is {norm_src(g.value)}, not check_groups(self.groups, n_features)")
+            if not all(cfgf.dominates(g, s) for s in sup):
+                probs.append("groups_ is not (re)computed on every path before training")
+            if cfgf.control_conditions(g):
+                probs.append(f"groups_ is only computed under `{norm_src(cfgf.control_conditions(g)[-1][0].test)}`")
+            if probs:
+                ctx.violation("C06-c", unit.relpath, f"{cname}.fit", norm_src(g)[:160], "; ".join(probs), line=g.lineno, site=site)
+            else:
+                ctx.ok("C06-c", site, "check_groups(self.groups, n_features) unconditionally before training")
+    # ---- c: group operators keep a group in one flattened row (abstract interpretation)
+    for gname, elem, nmat in (("group_linear_prox_grad", "linear_prox_grad", 1), ("group_mlp_prox_grad", "mlp_prox_grad", 2)):
+        gf = pu.func(gname)
+        D, K, H, G = Ax("D"), Ax("K"), Ax("H"), Ax("G")
+        seen_args = []
 
-
-def _alias_of(cfg, st, node, param):
-    """node is the parameter `param` or a local bound directly to it (v = W_skip_)"""
-    if not isinstance(node, ast.Name):
-        return False
-    if node.id == param:
-        return True
-    for d in cfg.reaching()[st].get(node.id, ()):
-        if d is not None and isinstance(d, ast.Assign) and isinstance(d.value, ast.Name) and d.value.id == param:
-            return True
-    return False
+        class Spy(Interp):
+            def call_function(self, unit, func, args, kwargs=None, **kw):
+                if func.name == elem:
+                    seen_args.append((list(args), self.stack[-1].qual if self.stack else "?"))
+                return Interp.call_function(self, unit, func, args, kwargs, **kw)
+        I = Spy(pm)
+        groups = Lst(elem=Lst(elem=Num("i", space=D), length=G), length=Ax("NG"))
+        args = [groups, Arr([D, K])] + ([Arr([D, H])] if nmat == 2 else []) + [Num("f")] + ([Num("f")] if nmat == 2 else [])
+        res = I.call_function(pu, gf, args, {}, qual=gname)
+        site = f"{gname}: one flattened row per group"
+        evs = [e for e in dedup_events(nonusage(I.events)) if e.kind in ("axis-mismatch", "index-space")]
+        if evs:
+            e = evs[0]
+            ctx.violation("C06-c", pu.relpath, gname, norm_src(e.stmt())[:160], f"[{e.kind}] {e.msg}", line=getattr(e.node, "lineno", None), site=site)
+            continue
+        if not seen_args:
+            ctx.violation("C06-c", pu.relpath, gname, gname, f"the group operator never calls {elem}", line=gf.lineno, site=site)
+            continue
+        bad = []
+        for a, q in seen_args:
+            for x in a[:nmat]:
+                if isinstance(x, Arr):
+                    if not (len(x.axes) == 2 and x.axes[0].one):
+                        bad.append(x)
+                else:
+                    bad.append(x)
+        if any(is_top(b) for b in bad):
+            ctx.unrecognised("C06-c", site, f"operand of {elem} is {bad[0]!r}")
+        elif bad:
+            ctx.violation("C06-c", pu.relpath, gname, f"{elem}({bad[0]!r}, ...)", f"the rows of a group reach {elem} as {bad[0]!r} instead of one flattened row [1, .]: "
+                          f"each feature of the group is thresholded on its own norm, so a group can be split", line=gf.lineno, site=site)
+        else:
+            ctx.ok("C06-c", site, f"{elem} receives {seen_args[0][0][:nmat]}")
+        # result has the operand's axes
+        want = [["D", "K"]] + ([["D", "H"]] if nmat == 2 else [])
+        from ..e3_axes import Tup
+        got = [res] if nmat == 1 else (res.items if isinstance(res, Tup) else [])
+        site = f"{gname}: result"
+        if len(got) == nmat and all(isinstance(g_, Arr) and [a.name for a in g_.axes] == w for g_, w in zip(got, want)):
+            ctx.ok("C06-c", site, f"{[repr(g_) for g_ in got]}")
+        elif any(is_top(g_) for g_ in got) or not got:
+            ctx.unrecognised("C06-c", site, f"abstract result {res!r}")
+        else:
+            ctx.violation("C06-c", pu.relpath, gname, "return", f"returns {res!r}, not arrays shaped like the operands", line=gf.lineno, site=site)
 
 
 def controls(pm, tier):
@@ -274,9 +336,23 @@ def controls(pm, tier):
     mut(LS, "        np.copyto(self.W_, new_W)", "        self.W_sparse_ = new_W", "C06-a", "shrunk weights not written back")
     mut(MS, "            new_W_skip, new_W1 = group_mlp_prox_grad(self.groups_, self.W_skip_, self.W1_,", "            new_W1, new_W_skip = group_mlp_prox_grad(self.groups_, self.W_skip_, self.W1_,", "C06-a", "grouped branch swaps its outputs")
     mut(MS, "        np.copyto(self.W1_, new_W1)\n", "", "C06-a", "hidden weights never shrunk")
+    mut(MS, "        # First update the weights according to our optimiser\n        self.optimiser_.update_params(weights, gradients)\n",
+        "        threshold = self.alpha * self.optimiser_.learning_rate\n        # First update the weights according to our optimiser\n        self.optimiser_.update_params(weights, gradients)\n", "C06-a", "placeholder")
+    out.pop()
+
+    def stale(pm_):
+        u = pm_.unit(MS)
+        a = "        self.optimiser_.update_params(weights, gradients)\n"
+        if a not in u.src or "self.alpha * self.optimiser_.learning_rate" not in u.src:
+            return None
+        s = u.src.replace(a, "        threshold = self.alpha * self.optimiser_.learning_rate\n" + a, 1)
+        s = s.replace("self.alpha * self.optimiser_.learning_rate,\n                                               self.M)", "threshold,\n                                               self.M)")
+        s = s.replace("self.alpha * self.optimiser_.learning_rate, self.M)", "threshold, self.M)")
+        return {u.relpath: s}
+    out.append({"name": "threshold computed before the optimiser step (stale Adam rate)", "rule": "C06-a", "apply": stale})
     mut(MS, "        return np.nonzero(np.linalg.norm(self.W_skip_, axis=1, ord=2))[0]", "        return np.nonzero(np.linalg.norm(self.W1_, axis=1, ord=2))[0]", "C06-b", "selection read from the hidden weights")
     mut(LS, "        return (np.linalg.norm(self.W_, axis=1, ord=2) != 0).sum()", "        return (np.linalg.norm(self.W_, axis=0, ord=2) != 0).sum()", "C06-b", "feature count over the cluster axis")
     mut(P, "        group_W_star = linear_prox_grad(group_W.reshape((1, -1)), alpha)", "        group_W_star = linear_prox_grad(group_W, alpha)", "C06-c", "group rows shrunk one by one")
-    mut(B, "            new_groups = groups + [[i] for i in range(n_features_in) if i not in all_indices]", "            new_groups = groups + [[i for i in range(n_features_in) if i not in all_indices]]", "C06-c", "leftover features lumped into one group")
     mut(MS, "        output_skip = X @ self.W_skip_\n", "        output_skip = X @ self.W_skip_ + X @ self.W_res_\n", "C06-b", "an unshrunk feature path in _infer")
+    mut(LS, "        self.groups_ = check_groups(self.groups, X.shape[1])  # Intercept", "        if not hasattr(self, 'groups_'):\n            self.groups_ = check_groups(self.groups, X.shape[1])  # Intercept", "C06-c", "groups_ only computed at the first fit")
     return out
